@@ -156,7 +156,14 @@ func init() {
 			j.Workers = 16
 			j.MaxPaths = 5000000
 			j.ReplayInstr = []SrcInsert{{File: "internal/peers/hub.go", Anchor: "h.mu.RUnlock()", Text: "\tvHubYield()", All: true}}
-			return []*Job{j}
+			l := hjp("internal/peers", "C11.lastleave", "H_C11_lastleave", "the last peer leaves while another joins the session")
+			l.Threads = true
+			l.CanonicalBlock = true
+			l.TimersNeverFire = true
+			l.Preempt = j.Preempt
+			l.Workers = 16
+			l.ReplayInstr = []SrcInsert{{File: "internal/peers/hub.go", Anchor: "h.mu.Unlock()", Text: "\tvHubYield()", All: true}}
+			return []*Job{j, l}
 		},
 	})
 
@@ -361,7 +368,13 @@ func init() {
 			r.EagerCalls = []string{"writeFileDone", "hashFileChunk"}
 			r.Workers = 16
 			r.MaxPaths = 5000000
-			return []*Job{n, r}
+			tw := hj("C03.twofiles", "H_C03_twofiles", "two resumed files on one stream, late duplicate between them")
+			tw.Threads = true
+			tw.TimersNeverFire = true
+			tw.EagerCalls = []string{"writeFileDone", "hashFileChunk"}
+			tw.Workers = 16
+			tw.MaxPaths = 5000000
+			return []*Job{n, r, tw}
 		},
 	})
 
